@@ -390,7 +390,7 @@ func c04RunTime(ctx *Ctx, c c04TimeCase) {
 
 // --- TZ matrix: the same battery in child processes with different TZ --------------------
 
-var c04Battery = []string{
+var c04BatteryFixed = []string{
 	"Patient.birthDate", "Patient.meta.lastUpdated", "Patient.meta.lastUpdated.value", "Patient.birthDate.value", "Patient.meta.lastUpdated > @2020-01-01T00:00:00Z", "Patient.birthDate = @1980-02-29", "Patient.birthDate + 1 day",
 	"@2020-01-01T10:00:00 = @2020-01-01T10:00:00Z", "@2020-01-01T10:00:00+05:30 < @2020-01-01T05:00:00Z", "@2020-03-08T01:30:00-05:00 + 1 hour", "@2020-01-01T23:30:00 + 45 minutes", "@2020-01-01.toDateTime()", "@2020-01-01T10:00:00Z.toDate()", "'2020-06-01T00:00:00+02:00'.toDateTime()",
 	"@T23:30 + 45 minutes", "today() = now().toDate()", "now().toString().substring(23)", "timeOfDay().toString().length()", "%dt", "%dt.toString()", "%da + 1 month", "%pat.meta.lastUpdated.toString()",
@@ -398,9 +398,50 @@ var c04Battery = []string{
 	"%ftm", "%ftm.toString()", "%ftm = @T08:30:00", "%ftm < @T09:00", "%ftm + 1 hour", "%ftms.toString()", "%fd", "%fd.toString()", "%fd = @2020-01-01", "%fd + 1 day", "%fd.toDateTime()", "%fdm.toString()", "%fdt.toString()", "%fdt = @2020-01-01T10:00:00+05:30", "%fdt.toDate()", "%fdd.toString()", "%fin.toString()", "%fin > @2020-01-01T00:00:00Z",
 }
 
+// the offsets the zones of the matrix use in winter and in summer, and some they never use
+var c04BatteryOffsets = []string{"Z", "+00:00", "+05:30", "-03:30", "-02:30", "+12:45", "+13:45", "-05:00", "+14:00"}
+
+// local times on both sides of the daylight-saving changes of the matrix zones (2020: St John's
+// 8 March / 1 November, Chatham 5 April / 27 September), and one in each season
+var c04BatteryStarts = []string{"2020-03-07T12:00:00", "2020-03-08T01:59:59", "2020-04-04T12:00:00", "2020-04-05T03:30:00", "2020-09-26T12:00:00", "2020-10-31T23:30:00", "2020-11-01T00:30:00", "2020-01-15T10:00:00", "2020-07-15T10:00:00.250"}
+
+var c04BatteryAmounts = []string{"1 day", "24 hours", "1 week", "1 month", "6 months", "1 year", "2 hours", "90 minutes", "0 seconds"}
+
+// c04Battery: the fixed programs, then literal and element arithmetic, conversions and
+// comparisons for every (start, offset) pair
+var c04Battery = func() []string {
+	out := append([]string{}, c04BatteryFixed...)
+	for i, st := range c04BatteryStarts {
+		for j, off := range c04BatteryOffsets {
+			lit := "@" + st + off
+			el := fmt.Sprintf("%%e%d_%d", i, j)
+			for k, q := range c04BatteryAmounts {
+				op := []string{"+", "-"}[(i+j+k)%2]
+				out = append(out, lit+" "+op+" "+q)
+				if (i+j+k)%3 == 0 {
+					out = append(out, el+" "+op+" "+q, "("+lit+" + "+q+") - "+q+" = "+lit)
+				}
+			}
+			out = append(out, el, el+".toString()", lit+".toString()", el+" = "+lit, "'"+st+off+"'.toDateTime()", lit+".toDate()")
+		}
+	}
+	return out
+}()
+
+func c04BatteryElements(vars map[string]any) {
+	for i, st := range c04BatteryStarts {
+		for j, off := range c04BatteryOffsets {
+			if e, err := protoDateTime(st + off); err == nil {
+				vars[fmt.Sprintf("e%d_%d", i, j)] = e
+			}
+		}
+	}
+}
+
 func c04BatteryResults() []string {
 	pat := fixturePatient()
 	vars := progVarsFor(pat)
+	c04BatteryElements(vars)
 	us := func(y int, mo time.Month, d, h, mi, sec, ms int, off int) int64 {
 		return time.Date(y, mo, d, h, mi, sec, ms*1e6, time.FixedZone("", off)).UnixMicro()
 	}
@@ -564,12 +605,18 @@ func c04RunIso(ctx *Ctx, c c04IsoCase) {
 	}
 	// option values are created once per name and reused by every later step: an option is a
 	// value, and what it does may depend on the Compile call it is applied to, not on its past
+	// both spellings of the option (compopts.AddFunction, fhirpath.WithFunction), alternating
+	nAdd := len(c.Steps)
+	add := func(name string, fn any) fhirpath.CompileOption {
+		nAdd++
+		return addFnV(nAdd, name, fn)
+	}
 	optByName := map[string]fhirpath.CompileOption{}
 	addFn := func(name string) fhirpath.CompileOption {
 		if o, ok := optByName[name]; ok {
 			return o
 		}
-		optByName[name] = compopts.AddFunction(name, c04MyFn)
+		optByName[name] = add(name, c04MyFn)
 		return optByName[name]
 	}
 	for _, st := range c.Steps {
@@ -584,25 +631,25 @@ func c04RunIso(ctx *Ctx, c c04IsoCase) {
 			case "fresh":
 				e, err = fhirpath.Compile("Patient.name."+st.Name+"(1)", addFn(st.Name))
 			case "fresh+exp":
-				e, err = fhirpath.Compile("Patient.name."+st.Name+"(1)", compopts.AddFunction(st.Name, c04MyFn), compopts.WithExperimentalFuncs())
+				e, err = fhirpath.Compile("Patient.name."+st.Name+"(1)", add(st.Name, c04MyFn), compopts.WithExperimentalFuncs())
 			case "exp+fresh":
-				e, err = fhirpath.Compile("Patient.name."+st.Name+"(1)", compopts.WithExperimentalFuncs(), compopts.AddFunction(st.Name, c04MyFn))
+				e, err = fhirpath.Compile("Patient.name."+st.Name+"(1)", compopts.WithExperimentalFuncs(), add(st.Name, c04MyFn))
 			case "dup":
-				e, err = fhirpath.Compile("Patient.name."+st.Name+"(1)", compopts.AddFunction(st.Name, c04MyFn), compopts.AddFunction(st.Name, c04MyFn))
+				e, err = fhirpath.Compile("Patient.name."+st.Name+"(1)", add(st.Name, c04MyFn), add(st.Name, c04MyFn))
 			case "builtin":
-				e, err = fhirpath.Compile("Patient.name.count()", compopts.AddFunction("count", c04MyFn))
+				e, err = fhirpath.Compile("Patient.name.count()", add("count", c04MyFn))
 			case "experimental":
 				e, err = fhirpath.Compile("Patient.name.given.join(',')", compopts.WithExperimentalFuncs())
 			case "permissive":
 				e, err = fhirpath.Compile("Patient.name.given", compopts.Permissive())
 			case "patch":
-				_, err = patch.Compile("Patient.name.given", compopts.AddFunction(st.Name, c04MyFn))
+				_, err = patch.Compile("Patient.name.given", add(st.Name, c04MyFn))
 			case "plain":
 				e, err = fhirpath.Compile("Patient.name.given.count()")
 			case "variadic":
-				e, err = fhirpath.Compile("1", compopts.AddFunction(st.Name, func(in system.Collection, xs ...system.Any) (system.Collection, error) { return in, nil }))
+				e, err = fhirpath.Compile("1", add(st.Name, func(in system.Collection, xs ...system.Any) (system.Collection, error) { return in, nil }))
 			case "bad":
-				e, err = fhirpath.Compile("1", compopts.AddFunction(st.Name, 42))
+				e, err = fhirpath.Compile("1", add(st.Name, 42))
 			}
 		})
 		history = append(history, fmt.Sprintf("Compile[%s %s] → err=%v", st.Kind, st.Name, err))
@@ -941,6 +988,173 @@ func c04RunEdit(ctx *Ctx, c c04EditCase) {
 
 var _ = proto.Equal
 
+
+// --- (g) evaluate options are per evaluation ------------------------------------------------
+
+// One compiled expression is evaluated with a history of different environment-variable values
+// (first values, other values, the first values again).  Every result must be what a freshly
+// compiled expression gives with the same options: the expression may not remember a value of
+// %var (or anything computed from it: a compiled pattern, a folded constant) from an earlier
+// evaluation.  Variables stand at the receiver and argument positions of every function of the
+// specification list and at both sides of every binary operator; their values come from the
+// boundary pool of the kind the position expects.
+
+type c04OptCase struct {
+	Tmpl string     `json:"tmpl"`
+	Vals [][]string `json:"vals"` // per evaluation, per variable %v<i>: the literal whose value it gets
+}
+
+var c04BinOps = []string{"+", "-", "*", "/", "div", "mod", "&", "=", "!=", "~", "!~", "<", "<=", ">", ">=", "|", "in", "contains", "and", "or", "xor", "implies"}
+
+func c04GenOpt(s Src) c04OptCase {
+	var kinds [][]string // candidate literals per variable
+	v := func(terms []string) string {
+		kinds = append(kinds, terms)
+		return fmt.Sprintf("%%v%d", len(kinds)-1)
+	}
+	var tmpl string
+	if s.Prob(60) {
+		spec := pickOne(s, fnSpecs)
+		part := func(p string) string {
+			if ts := c01KindTerms(p); ts != nil && s.Prob(70) {
+				return v(ts)
+			}
+			return p
+		}
+		recv := part(spec.Recv)
+		var args []string
+		n := s.Range(spec.Min, spec.Max)
+		for i := 0; i < n && i < len(spec.Args); i++ {
+			args = append(args, part(spec.Args[i]))
+		}
+		tmpl = recv + "." + spec.Name + "(" + strings.Join(args, ", ") + ")"
+		if len(kinds) == 0 {
+			// no literal position: make the receiver's filter depend on a variable
+			tmpl = "(" + tmpl + ").select($this.toString() & " + v(c01KindLits["String"]) + ")"
+		}
+	} else {
+		k := pickOne(s, []string{"Integer", "num", "Decimal", "String", "Boolean", "Date", "DateTime", "Time", "Quantity"})
+		k2 := k
+		if s.Prob(20) {
+			k2 = pickOne(s, []string{"Integer", "num", "String", "Boolean", "Date", "DateTime", "Quantity"})
+		}
+		if len(c01KindLits[k]) == 0 || len(c01KindLits[k2]) == 0 {
+			k, k2 = "Integer", "Integer"
+		}
+		op := pickOne(s, c04BinOps)
+		l, r := v(c01KindLits[k]), v(c01KindLits[k2])
+		if s.Prob(25) { // one side a literal
+			r = pickOne(s, c01KindLits[k2])
+		}
+		tmpl = l + " " + op + " " + r
+		switch s.Intn(5) {
+		case 0:
+			tmpl = "iif(" + tmpl + ", " + v(c01KindLits["String"]) + ", 'no')"
+		case 1:
+			tmpl = "%ints.select($this.toString() & (" + tmpl + ").toString())"
+		case 2:
+			tmpl = "(" + tmpl + ") " + pickOne(s, c04BinOps) + " " + v(c01KindLits[k])
+		}
+	}
+	c := c04OptCase{Tmpl: tmpl}
+	draw := func() []string {
+		var out []string
+		for _, ts := range kinds {
+			out = append(out, pickOne(s, ts))
+		}
+		return out
+	}
+	first := draw()
+	c.Vals = [][]string{first, draw(), first}
+	if s.Prob(30) {
+		c.Vals = append(c.Vals, draw(), first)
+	}
+	return c
+}
+
+var c04LitValues sync.Map // literal text → value (system.Collection or a single item)
+
+func c04LitValue(lit string) (any, bool) {
+	if v, ok := c04LitValues.Load(lit); ok {
+		return v, v != nil
+	}
+	var out any
+	if e, err := fhirpath.Compile(lit); err == nil {
+		if coll, err := e.Evaluate([]fhir.Resource{fixturePatient()}, evalopts.OverrideTime(fixedNow)); err == nil {
+			if len(coll) == 1 {
+				out = coll[0]
+			} else {
+				out = coll
+			}
+		}
+	}
+	c04LitValues.Store(lit, out)
+	return out, out != nil
+}
+
+func c04RunOpt(ctx *Ctx, c c04OptCase) {
+	p := fixturePatient()
+	input := fixtureInput(p)
+	base := progVarsFor(p)
+	optsFor := func(vals []string) ([]fhirpath.EvaluateOption, bool) {
+		vars := map[string]any{}
+		for k, x := range base {
+			vars[k] = x
+		}
+		for i, lit := range vals {
+			x, ok := c04LitValue(lit)
+			if !ok {
+				return nil, false
+			}
+			vars[fmt.Sprintf("v%d", i)] = x
+		}
+		names := make([]string, 0, len(vars))
+		for k := range vars {
+			names = append(names, k)
+		}
+		sort.Strings(names)
+		var eopts []fhirpath.EvaluateOption
+		for _, k := range names {
+			eopts = append(eopts, evalopts.EnvVariable(k, vars[k]))
+		}
+		return append(eopts, evalopts.OverrideTime(fixedNow)), true
+	}
+	shared, err := fhirpath.Compile(c.Tmpl)
+	if err != nil {
+		ctx.Eval(c.Tmpl, false, "stage:changing-options", "outcome:compile-error")
+		return
+	}
+	var fresh []string
+	for round, vals := range c.Vals {
+		eopts, ok := optsFor(vals)
+		if !ok {
+			ctx.Count("changing_options_literal_without_value")
+			return
+		}
+		var got, want c04Result
+		g := guard(func() {
+			got = c04EvalOnce(shared, input, eopts)
+			e2, err := fhirpath.Compile(c.Tmpl)
+			if err != nil {
+				want = c04Result{err: "compile: " + err.Error()}
+				return
+			}
+			want = c04EvalOnce(e2, input, eopts)
+		})
+		if g.Panic != "" || strings.HasPrefix(got.err, "panic") || strings.HasPrefix(want.err, "panic") {
+			return // C01
+		}
+		fresh = append(fresh, want.render+"|"+fmt.Sprint(want.err != ""))
+		if got.render != want.render || (got.err != "") != (want.err != "") {
+			ctx.Eval(c.Tmpl+fmt.Sprint(c.Vals), true, "stage:changing-options")
+			ctx.Fail("evaluate options: an expression evaluated before with other variable values gives another result than a freshly compiled one",
+				fmt.Sprintf("%s, evaluation %d with %v (history %v): shared expression %s %s, fresh expression %s %s", c.Tmpl, round+1, vals, c.Vals[:round], clip(got.render, 200), got.err, clip(want.render, 200), want.err))
+			return
+		}
+	}
+	ctx.Eval(c.Tmpl+fmt.Sprint(c.Vals), len(fresh) > 1 && fresh[0] != fresh[1], "stage:changing-options", fmt.Sprintf("value-dependent:%v", len(fresh) > 1 && fresh[0] != fresh[1]))
+}
+
 func TestC04(t *testing.T) {
 	r := newRec("C04",
 		"(concurrent) a history is 1..6 compiled expressions (a pool of read-heavy programs using where/select/exists/all/iif/now()/variables/a custom function, plus generated programs), the fixture Patient + 0..2 generated resources shared by all goroutines, 2..16 goroutines each with 1..20 (expression, resource subset, option set) evaluations (60% of them the same expression on the same resource), a drawn start order behind a barrier, GOMAXPROCS ∈ {1,2,4,16} and 0..3 goroutines calling Compile/patch.Compile with AddFunction/WithExperimentalFuncs meanwhile; run in a -race binary; oracle: race detector silent, every concurrent result (rendering and element pointers) equals the same evaluation performed alone beforehand, shared resources unchanged.  (time) instants around epoch/leap day/DST changes/year 9999 in 13 zones: now()/today()/timeOfDay() under OverrideTime, one instant per evaluation spanning ≥ 6 ms with and without override, repeatability.  (tz-matrix) a fixed battery without OverrideTime in child processes with TZ ∈ {UTC, Asia/Kolkata, America/St_Johns, Pacific/Chatham} must render identically.  (compile-isolation) generated histories of 1..10 Compile calls over {fresh/duplicate/built-in/variadic/non-function AddFunction, WithExperimentalFuncs, AddFunction combined with WithExperimentalFuncs in either order, Permissive, patch.Compile, plain} with the invariant after every step: base table snapshot unchanged, no registered name resolves elsewhere, join only with the experimental option, built-in battery unchanged.  (retained-results) one compiled path (a path of a generated resource A, optionally followed by where/tail/select/take/children) evaluated on A, then on a second resource B of the same type, then on A again: the collection returned first still holds A's elements and the third result equals the first.; the caller then overwrites the collections it was given and evaluates once more (same result); programs include `is`/exists()/count() results and results cut from the root collection.  (in-place-edits) a compiled path with a conversion (toString(), = …) is evaluated, the caller changes the value of every primitive element in place and re-packs every contained resource into its own Any, and evaluates again: the result must equal a fresh compilation evaluated on a deep copy of the edited resource.  non-trivial = ≥ 2 evaluations of one (expression, resources, options) triple in different goroutines; a history with a registration followed by a plain Compile; distinct = FNV-64 of the history",
@@ -950,6 +1164,7 @@ func TestC04(t *testing.T) {
 		Stage[c04IsoCase]{Name: "compile-isolation", Gen: c04GenIso, Run: c04RunIso, N: pick(150, 3000)},
 		Stage[c04KeepCase]{Name: "retained-results", Gen: c04GenKeep, Run: c04RunKeep, N: pick(400, 8000)},
 		Stage[c04EditCase]{Name: "in-place-edits", Gen: c04GenEdit, Run: c04RunEdit, N: pick(400, 8000)},
+		Stage[c04OptCase]{Name: "changing-options", Gen: c04GenOpt, Run: c04RunOpt, N: pick(1500, 40000)},
 		Stage[c04TimeCase]{Name: "time", Gen: c04GenTime, Run: c04RunTime, N: pick(60, 1500)},
 		Stage[c04ConcCase]{Name: "concurrent", Gen: c04GenConc, Run: c04RunConc, N: pick(80, 2500)},
 	)
